@@ -45,7 +45,8 @@ func (p *OutPort) RemoveOpenHook(hook OpenHook) bool {
 
 	for i, h := range p.openHooks {
 		if h == hook {
-			p.openHooks = append(p.openHooks[:i], p.openHooks[i+1:]...)
+			// Copy on removal: Open iterates a snapshot of this slice outside the lock.
+			p.openHooks = append(p.openHooks[:i:i], p.openHooks[i+1:]...)
 			return true
 		}
 	}
@@ -127,7 +128,8 @@ func (p *OutPort) Unlink(in *InPort) bool {
 
 	for i, e := range p.ins {
 		if e == in {
-			p.ins = append(p.ins[:i], p.ins[i+1:]...)
+			// Copy on removal: Open iterates a snapshot of this slice outside the lock.
+			p.ins = append(p.ins[:i:i], p.ins[i+1:]...)
 			return true
 		}
 	}
